@@ -185,7 +185,7 @@ func (c *Ctx) MustCut(rule, what string, f *ssa.Function, target InstrPred, cut 
 		return false
 	}
 
-	ts := Find(f, target)
+	ts := FindTargets(f, target)
 	if len(ts) < minTargets {
 		c.Unknown(rule, construct, fpos(f), fmt.Sprintf("anchor-unresolved: expected >= %d target instructions, found %d", minTargets, len(ts)))
 
@@ -218,7 +218,7 @@ func (c *Ctx) MustFollow(rule, what string, f *ssa.Function, from InstrPred, exi
 		return false
 	}
 
-	starts := After(f, from)
+	starts := AfterTargets(f, from)
 	if len(starts) < minFrom {
 		c.Unknown(rule, construct, fpos(f), fmt.Sprintf("anchor-unresolved: expected >= %d start instructions, found %d", minFrom, len(starts)))
 
